@@ -437,8 +437,105 @@ def evaluate(case, part, verbose=False):
     return observed
 
 
+# ------------------------------------------------------------------------------------------------ histories
+# ONE DCOP object changed through its public API; the three graphs are re-built and judged after every step.
+H_NAMES = POOL[:3]
+H_EXTRA = POOL[3]
+H_CN = CNAMES[:3]
+H_INIT = [(H_CN[0], (H_NAMES[0], H_NAMES[1])), (H_CN[1], (H_NAMES[1], H_NAMES[2]))]
+
+
+def hist_ops():
+    scopes = [sc for r in (1, 2, 3) for sc in itertools.combinations(H_NAMES, r)]
+    return [("set", c, sc) for c in H_CN for sc in scopes] + [("del", c) for c in H_CN] + [("addvar", H_EXTRA)]
+
+
+def hist_eval(dcop, names, model, hist, part):
+    import importlib
+
+    cons = tuple((c, tuple(sc)) for c, sc in model.items())
+    jcase = {"history": [list(o) for o in hist]}
+    step = "after-" + hist[-1][0] if hist else "initial"
+    ok = True
+    for tag, modname, checker in GRAPHS:
+        mod = importlib.import_module(modname)
+
+        def rep(key, what, _tag=tag):
+            nonlocal ok
+            ok = False
+            part.violation(f"C16|history|{key}|{step}", f"one DCOP object, history {hist} (graphs re-built after every step), now variables {list(names)} constraints {list(cons)}: {_tag}: {what}", jcase)
+
+        try:
+            graph = mod.build_computation_graph(dcop)
+            checker(graph, tuple(names), cons, rep)
+        except Exception as e:  # noqa
+            rep(f"{tag}|raised|{type(e).__name__}", f"raised {type(e).__name__}: {e}")
+        part.count("history_graphs_built")
+    part.count("evaluations")
+    return ok
+
+
+def hist_run(hist, part):
+    from pydcop.dcop.dcop import DCOP
+    from pydcop.dcop.objects import Domain
+
+    dom = Domain("d", "level", [0, 1])
+    variables = collections.OrderedDict((v, make_variable(v, dom)) for v in H_NAMES)
+    dcop = DCOP("p")
+    for v in variables.values():
+        dcop.add_variable(v)
+    names = list(H_NAMES)
+    model = collections.OrderedDict()
+    for c, sc in H_INIT:
+        dcop.add_constraint(make_constraint(c, sc, variables, "matrix"))
+        model[c] = sc
+    ok = hist_eval(dcop, names, model, [], part)
+    for i, op in enumerate(hist):
+        if op[0] == "set":
+            dcop.add_constraint(make_constraint(op[1], tuple(op[2]), variables, "matrix"))
+            model[op[1]] = tuple(op[2])
+        elif op[0] == "del":
+            del dcop.constraints[op[1]]
+            del model[op[1]]
+        else:
+            variables[op[1]] = make_variable(op[1], dom)
+            dcop.add_variable(variables[op[1]])
+            names.append(op[1])
+        ok = hist_eval(dcop, names, model, hist[:i + 1], part) and ok
+    return ok, dict(model), names
+
+
+def shard_history(idx, n, depth):
+    part = Part()
+    ops = hist_ops()
+    count = [0]
+
+    def rec(hist, model, names):
+        if len(hist) == depth:
+            return
+        for op in ops:
+            if (op[0] == "del" and op[1] not in model) or (op[0] == "set" and model.get(op[1]) == tuple(op[2])) or (op[0] == "addvar" and op[1] in names):
+                continue
+            h2 = hist + [op]
+            if len(h2) == 1:
+                count[0] += 1
+                if count[0] % n != idx:
+                    continue
+            ok, m2, n2 = hist_run(h2, part)
+            part.count("cases_histories")
+            part.nontriv(("history", repr(h2)))
+            part.outcome(("history", tuple(sorted(m2.items())), tuple(n2), ok))
+            if ok:
+                rec(h2, m2, n2)
+
+    rec([], dict(H_INIT), list(H_NAMES))
+    return part
+
+
 def shard(args):
     idx, n, plan = args
+    if plan in ("history2", "history3"):
+        return shard_history(idx, n, int(plan[-1]))
     part = Part()
     for i, case in enumerate(cases(plan)):
         if i % n != idx:
@@ -469,7 +566,9 @@ def run(ctx):
         f"{STYLES} (matrix relation / expression relation with set-ordered dimensions / function relations over cloned "
         f"variables in reversed order) and handed over 3 ways {ENTRIES}; for each case the real constraints hyper-graph, "
         "factor graph and ordered graph are built and nodes, node.constraints, node.neighbors, node.links, graph.links and "
-        "next/previous are compared with a reference computed from names and scopes only. Non-trivial = at least one "
+        "next/previous are compared with a reference computed from names and scopes only. Histories: ONE DCOP object (3 variables, 2 constraints) "
+        "is changed through its public API - a constraint replaced under the same name by any scope, added or deleted, a variable added - and "
+        "the three graphs are re-built and judged after every step: every sequence of <= 2 (thorough 3) changes. Non-trivial = at least one "
         "constraint of arity >= 2 together with an isolated variable, a unary constraint or two overlapping scopes."
     )
     ctx.assumptions = [
@@ -477,10 +576,19 @@ def run(ctx):
         "No external variables, no zero-ary constraints, variable and constraint names distinct, re-iterable containers for the variables=/constraints= form.",
         "Lexical order = Python order of the (lower-case ASCII) names.",
     ]
-    ctx.pmap(shard, ctx.rotate([(i, NSHARDS, plan) for i in range(NSHARDS)]))
+    hplan = "history2" if ctx.quick else "history3"
+    ctx.pmap(shard, ctx.rotate([(i, NSHARDS, plan) for i in range(NSHARDS)] + [(i, 16, hplan) for i in range(16)]))
 
 
 def replay(case):
+    if "history" in case:
+        part = Part()
+        hist = [tuple(tuple(x) if isinstance(x, list) else x for x in o) for o in case["history"]]
+        ok, model, names = hist_run(hist, part)
+        print("final:", names, model, "ok" if ok else "MISMATCH")
+        for v in part.violations[:10]:
+            print(" ", v["key"], "::", v["what"][:500])
+        return bool(part.violations)
     part = Part()
     c = (tuple(case["names"]), tuple((n, tuple(sc)) for n, sc in case["cons"]), case["style"], case["entry"])
     print("case:", c)
